@@ -35,6 +35,13 @@ def main():
         import selftest
         return selftest.run()
     tier = a.tier or common.tier_from_env()
+    if a.what == "utils":          # extra check, not one of the listed properties (evidence/UTILS.json)
+        import utils_extra
+        try:
+            return utils_extra.run(tier)
+        except (common.MachineryError, tlcrun.TLCError) as e:
+            print(f"MACHINERY-FAILURE utils: {e}")
+            return 2
     prop = a.what.upper()
     try:
         if prop in ("C02", "C14", "C18"):
